@@ -6,8 +6,11 @@
    stream are never returned as data.  Statements only; proofs in Proofs/C30.v.
 
    [batch] = (schema label, schema metadata, rows, values, the batch's OWN custom metadata).
-   Arrow IPC ([enc]/[dec]), zstd ([comp]/[decomp]) and hex SHA-256 ([sha]) are oracles: each
-   theorem holds for EVERY choice of them, under the premises written in its statement.
+   Arrow IPC ([enc]/[dec]), zstd ([comp]/[decomp]), hex SHA-256 ([sha]) and the framing guard
+   ([framed] = checkIPCStreamFraming accepts the bytes: every declared message length fits;
+   data cut exactly at a message boundary or inside the next 8-byte prefix still passes, a cut
+   inside a message does not) are oracles: each theorem holds for EVERY choice of them, under
+   the premises written in its statement.
    [size] is the value of batchBufferSize (in-memory buffer size, not the serialized size).
    The Go API hands custom metadata both ON the batch (RecordBatchWithMetadata, [b_meta]) and
    NEXT TO it (the meta argument, [side]).  "Equal in custom metadata" means: the resolved
@@ -28,9 +31,11 @@ Open Scope N_scope.
    own ++ side — next to the fetch-info metadata. *)
 Theorem resolve_externalize_roundtrip :
   forall (wire : Type) (enc : list batch -> wire) (dec : wire -> option (list batch))
-         (comp : wire -> wire) (decomp : wire -> option wire) (sha : wire -> bytes),
+         (comp : wire -> wire) (decomp : wire -> option wire) (sha : wire -> bytes)
+         (framed : wire -> bool),
   (forall bs, dec (enc bs) = Some bs) ->
   (forall w, decomp (comp w) = Some w) ->
+  (forall bs, framed (enc bs) = true) ->
   forall c b size side url,
   c_storage c = true -> b_rows b <> 0 -> (threshold c <= size)%Z -> level_bad c = false ->
   url <> [] -> url_ok (c_val c) url = true -> mhas (b_meta b ++ side) c30_k_log_level = false ->
@@ -38,19 +43,19 @@ Theorem resolve_externalize_roundtrip :
   let obj := if zstd_on c then comp (enc [with_side b side]) else enc [with_side b side] in
   x_err x = false /\ x_batch x = pointer_batch b /\ x_up x = [(obj, zstd_on c)] /\
   mget (x_meta x) c30_k_location = Some url /\
-  resolve wire dec decomp sha (Some c) (x_batch x) (x_meta x)
+  resolve wire dec decomp sha framed (Some c) (x_batch x) (x_meta x)
           (Some (Build_served url obj (zstd_on c))) = ROk (with_side b side) (fetch_meta url).
 Proof. exact roundtrip_lemma. Qed.
 
 (* ---- 2. a download whose checksum does not match is refused ----------------------- *)
 Theorem checksum_mismatch_refused :
   forall (wire : Type) (dec : wire -> option (list batch)) (decomp : wire -> option wire)
-         (sha : wire -> bytes) c p m srv x u w h,
+         (sha : wire -> bytes) (framed : wire -> bool) c p m srv x u w h,
   is_pointer (b_rows p) m = true -> mget m c30_k_location = Some (x :: u) ->
   url_ok (c_val c) (x :: u) = true ->
   fetch wire decomp srv (x :: u) = Some w ->           (* w: the download, content-decoded *)
   mget m c30_k_sha = Some h -> sha w <> h ->
-  resolve wire dec decomp sha (Some c) p m srv = RErr ESha.
+  resolve wire dec decomp sha framed (Some c) p m srv = RErr ESha.
 Proof. exact checksum_lemma. Qed.
 
 (* with a collision-free digest: under the pointer externalize produced, ANY download other
@@ -58,14 +63,25 @@ Proof. exact checksum_lemma. Qed.
 Theorem tampered_download_refused :
   forall (wire : Type) (enc : list batch -> wire) (dec : wire -> option (list batch))
          (comp : wire -> wire) (decomp : wire -> option wire) (sha : wire -> bytes)
-         c b size side url srv w,
+         (framed : wire -> bool) c b size side url srv w,
   (forall a a', sha a = sha a' -> a = a') -> sha (enc [with_side b side]) <> [] ->
   c_storage c = true -> b_rows b <> 0 -> (threshold c <= size)%Z -> level_bad c = false ->
   url <> [] -> url_ok (c_val c) url = true ->
   fetch wire decomp srv url = Some w -> w <> enc [with_side b side] ->
   let x := externalize wire enc comp sha (Some c) b size side (UpOk url) in
-  resolve wire dec decomp sha (Some c) (x_batch x) (x_meta x) srv = RErr ESha.
+  resolve wire dec decomp sha framed (Some c) (x_batch x) (x_meta x) srv = RErr ESha.
 Proof. exact tamper_lemma. Qed.
+
+(* a download that is not a well-framed IPC stream (truncated inside a message, garbage) is
+   refused — checksum or parse error — whatever batches arrow-go could still read from it *)
+Theorem ill_framed_download_refused :
+  forall (wire : Type) (dec : wire -> option (list batch)) (decomp : wire -> option wire)
+         (sha : wire -> bytes) (framed : wire -> bool) c p m srv x u w,
+  is_pointer (b_rows p) m = true -> mget m c30_k_location = Some (x :: u) ->
+  url_ok (c_val c) (x :: u) = true -> fetch wire decomp srv (x :: u) = Some w ->
+  framed w = false ->
+  exists e, resolve wire dec decomp sha framed (Some c) p m srv = RErr e /\ (e = ESha \/ e = EParse).
+Proof. exact ill_framed_lemma. Qed.
 
 (* ---- 3. the threshold rule ------------------------------------------------------- *)
 (* with a storage (and a zstd level the encoder knows): something is uploaded iff the batch
@@ -119,24 +135,24 @@ Proof. exact (select_perm classify). Qed.
    is a data batch of the checksum-verified, decoded download, which holds no pointer *)
 Theorem resolve_returns_only_fetched_data :
   forall (wire : Type) (dec : wire -> option (list batch)) (decomp : wire -> option wire)
-         (sha : wire -> bytes) c p m srv r m',
-  resolve wire dec decomp sha (Some c) p m srv = ROk r m' ->
+         (sha : wire -> bytes) (framed : wire -> bool) c p m srv r m',
+  resolve wire dec decomp sha framed (Some c) p m srv = ROk r m' ->
   exists u w bs,
     is_pointer (b_rows p) m = true /\ mget m c30_k_location = Some u /\ u <> [] /\
     url_ok (c_val c) u = true /\ fetch wire decomp srv u = Some w /\
-    sha_ok wire sha m w = true /\ dec w = Some bs /\
+    sha_ok wire sha m w = true /\ framed w = true /\ dec w = Some bs /\
     In r bs /\ classify r = CData /\ has_ptr_by classify bs = false /\
     (exists pre, datas_by classify bs = pre ++ [r]) /\ m' = fetch_meta u.
 Proof. exact resolve_sound_lemma. Qed.
 
 Theorem resolve_pointer_or_no_data_is_error :
   forall (wire : Type) (dec : wire -> option (list batch)) (decomp : wire -> option wire)
-         (sha : wire -> bytes) c p m srv x u w bs,
+         (sha : wire -> bytes) (framed : wire -> bool) c p m srv x u w bs,
   is_pointer (b_rows p) m = true -> mget m c30_k_location = Some (x :: u) ->
   url_ok (c_val c) (x :: u) = true -> fetch wire decomp srv (x :: u) = Some w ->
-  sha_ok wire sha m w = true -> dec w = Some bs ->
+  sha_ok wire sha m w = true -> framed w = true -> dec w = Some bs ->
   has_ptr_by classify bs = true \/ datas_by classify bs = [] ->
-  resolve wire dec decomp sha (Some c) p m srv
+  resolve wire dec decomp sha framed (Some c) p m srv
     = RErr (if has_ptr_by classify bs then ELoop else ENoData).
 Proof. exact resolve_error_lemma. Qed.
 
@@ -185,6 +201,7 @@ Example premises_satisfiable :
   url_ok (c_val c) (str "https://h/o/1") = true /\
   mhas (b_meta b ++ [(str "k", str "v")]) c30_k_log_level = false /\
   (forall bs, sdec (SIpc bs) = Some bs) /\ (forall w, sdecomp (SZ w) = Some w) /\
+  (forall bs, sframed (SIpc bs) = true) /\
   sresolve [] (Some c) (pointer_batch b) (pointer_meta (str "https://h/o/1") (str "ab"))
            (Some (Build_served (str "https://h/o/1") (SZ (SIpc [b])) true))
     = RErr ESha.
